@@ -1512,3 +1512,40 @@ def expand_quantifiers(fn):
         fn.body = prune(fn.body)
         ast.fix_missing_locations(fn)
     return cnt[0]
+
+
+def fold_int_class_attrs(fn, folder, c):
+    """Copy of fn with loads of `self.X` / `cls.X` written as the integer
+    the class attribute folds to (named constants for header sizes, masks);
+    attributes some method of the class family stores to are left alone."""
+    fam = [k for k in getattr(c, "mro", []) if hasattr(k, "methods")]
+    try:
+        fam += list(c.subclasses())
+    except Exception:
+        pass
+    stored = set()
+    for k in fam:
+        for (kind, m) in getattr(k, "methods", {}).values():
+            for n in ast.walk(m):
+                if isinstance(n, ast.Attribute) and isinstance(
+                        n.ctx, (ast.Store, ast.Del)) and isinstance(
+                            n.value, ast.Name) and n.value.id in ("self",
+                                                                  "cls"):
+                    stored.add(n.attr)
+
+    class F(ast.NodeTransformer):
+        def visit_Attribute(self, n):
+            self.generic_visit(n)
+            if isinstance(n.ctx, ast.Load) and isinstance(
+                    n.value, ast.Name) and n.value.id in ("self", "cls") \
+                    and n.attr not in stored:
+                try:
+                    v = folder.class_attr(c, n.attr)
+                except Exception:
+                    v = None
+                if type(v) is int:
+                    return ast.copy_location(ast.Constant(v), n)
+            return n
+    out = F().visit(acopy(fn))
+    ast.fix_missing_locations(out)
+    return out
